@@ -136,17 +136,7 @@ func VerifC17ProposalOracles() {
 func VerifC17OutgoingBridgeCallTokens() {
 	e := verifBridgeState()
 	e.k.SetLastObservedBlockHeight(e.ctx, 1000, 90)
-	// a second bridged token, registered like the first
-	base2, erc2 := "fxusd", common.HexToAddress("0x00000000000000000000000000000000000000c2")
-	if err := e.k.AddBridgeTokenExecuted(e.ctx, &types.MsgBridgeTokenClaim{TokenContract: verifTokenB, Name: "FX USD", Symbol: "FXUSD", Decimals: 6, ChainName: verifModule}); err != nil {
-		panic(err)
-	}
-	bridgeDenom2 := types.NewBridgeDenom(verifModule, verifTokenB)
-	e.bank.SetDenomMetaData(e.ctx, banktypes.Metadata{Base: base2, Display: base2, Name: "FX USD", Symbol: "FXUSD",
-		DenomUnits: []*banktypes.DenomUnit{{Denom: base2, Exponent: 0, Aliases: []string{bridgeDenom2}}}})
-	e.ek.SetAliasesDenom(e.ctx, base2, bridgeDenom2)
-	e.ek.AddTokenPair(e.ctx, erc20types.TokenPair{Erc20Address: erc2.Hex(), Denom: base2, Enabled: true, ContractOwner: erc20types.OWNER_MODULE})
-	e.evm.Contracts = append(e.evm.Contracts, erc2)
+	base2, bridgeDenom2, _ := e.verifSecondToken()
 	module := models.ModuleAddress(verifModule)
 	a1, a2 := verifAmt("amount.usdt", 64), verifAmt("amount.fxusd", 64)
 	rt.Assume(rt.And(a1.IsPositive(), a2.IsPositive()))
@@ -183,4 +173,19 @@ func VerifC17OutgoingBridgeCallTokens() {
 		}
 	}
 	rt.SetMapOrder(false)
+}
+
+// verifSecondToken registers a second bridged token (0x..03 <-> "fxusd") exactly like the first.
+func (e *verifBridgeEnv) verifSecondToken() (base2, bridgeDenom2 string, erc2 common.Address) {
+	base2, erc2 = "fxusd", common.HexToAddress("0x00000000000000000000000000000000000000c2")
+	if err := e.k.AddBridgeTokenExecuted(e.ctx, &types.MsgBridgeTokenClaim{TokenContract: verifTokenB, Name: "FX USD", Symbol: "FXUSD", Decimals: 6, ChainName: verifModule}); err != nil {
+		panic(err)
+	}
+	bridgeDenom2 = types.NewBridgeDenom(verifModule, verifTokenB)
+	e.bank.SetDenomMetaData(e.ctx, banktypes.Metadata{Base: base2, Display: base2, Name: "FX USD", Symbol: "FXUSD",
+		DenomUnits: []*banktypes.DenomUnit{{Denom: base2, Exponent: 0, Aliases: []string{bridgeDenom2}}}})
+	e.ek.SetAliasesDenom(e.ctx, base2, bridgeDenom2)
+	e.ek.AddTokenPair(e.ctx, erc20types.TokenPair{Erc20Address: erc2.Hex(), Denom: base2, Enabled: true, ContractOwner: erc20types.OWNER_MODULE})
+	e.evm.Contracts = append(e.evm.Contracts, erc2)
+	return base2, bridgeDenom2, erc2
 }
